@@ -313,6 +313,10 @@ Loop:
 				return zerr.UnexpectedParamWildcard()
 			}
 		default:
+			// a required parameter that was not supplied
+			if idx >= len(values) {
+				return zerr.LeastParamsError(idx + 1)
+			}
 			if err := validateOneParam(values[idx], t); err != nil {
 				return err
 			}
